@@ -210,6 +210,21 @@ fn sliding_log_huge_window() {
     std::mem::forget(s);
 }
 
+/// limit_for_period = 0 ("admit nothing"): the empty log has no oldest grant whose expiry
+/// could be waited for; the caller must still not be granted.
+#[kani::proof]
+#[kani::unwind(6)]
+#[kani::stub(std::time::Instant::now, env::now_stub)]
+fn sliding_log_limit_zero() {
+    init_clock();
+    let timeout = any_millis(300_000);
+    let mut s = SlidingLogState::new(0, any_millis(100_000), timeout);
+    let r = s.try_acquire();
+    assert!(r != Ok(Duration::ZERO) && s.request_log.len() == 0, "[C02.log_grant_needs_room] a grant needs fewer than limit unexpired grants: with limit 0 nobody is granted");
+    assert!(r == Err(timeout), "[C15.log_reject_only_beyond_timeout] no grant will ever expire: the caller is rejected");
+    std::mem::forget(s);
+}
+
 // ------------------------------------------------------------------ sliding counter
 /// Whole-second instants and durations for the sliding counter: its f64 ratio
 /// arithmetic over nanosecond-precise symbolic durations did not finish in 15
